@@ -10,6 +10,8 @@ import (
 	"sync"
 
 	"github.com/codelaboratoryltd/bng/pkg/allocator"
+
+	"verif/sched"
 )
 
 // fstore is the harness's fake ordered allocator.Store:
@@ -33,6 +35,19 @@ type fstore struct {
 	dead      bool
 	callbacks []func(key string, value []byte, deleted bool)
 	log       []string
+	// failPutSeq: fail the n-th Put that reaches the store (1-based, 0 = none); used by the
+	// Engine B scenarios where "the next Put" would depend on the schedule.
+	failPutSeq int
+	putSeq     int
+}
+
+// pt makes every store operation a scheduling point of Engine B (entry and return), so a
+// thread can be preempted "inside store.Put". It is a no-op outside a controlled execution.
+// It must be called WITHOUT f.mu held (only one logical thread runs at a time).
+func pt(label string) {
+	if x := sched.Active(); x != nil && !x.Aborted() {
+		x.Point(label)
+	}
 }
 
 var (
@@ -77,6 +92,13 @@ func (f *fstore) enter(kind, key string) error {
 }
 
 func (f *fstore) Get(ctx context.Context, key string) ([]byte, error) {
+	pt("store.Get")
+	r, err := f.get(ctx, key)
+	pt("store.Get/return")
+	return r, err
+}
+
+func (f *fstore) get(ctx context.Context, key string) ([]byte, error) {
 	f.mu.Lock()
 	defer f.mu.Unlock()
 	if err := f.enter("get", key); err != nil {
@@ -90,16 +112,36 @@ func (f *fstore) Get(ctx context.Context, key string) ([]byte, error) {
 }
 
 func (f *fstore) Put(ctx context.Context, key string, value []byte) error {
+	pt("store.Put")
+	err := f.put(ctx, key, value)
+	pt("store.Put/return")
+	return err
+}
+
+func (f *fstore) put(ctx context.Context, key string, value []byte) error {
 	f.mu.Lock()
 	defer f.mu.Unlock()
 	if err := f.enter("put", key); err != nil {
 		return err
+	}
+	f.putSeq++
+	if f.failPutSeq > 0 && f.putSeq == f.failPutSeq {
+		f.fired = "put"
+		f.log = append(f.log, "put "+key+" => FAIL (put #"+fmt.Sprint(f.putSeq)+")")
+		return errInjected
 	}
 	f.data[key] = append([]byte(nil), value...)
 	return nil
 }
 
 func (f *fstore) Delete(ctx context.Context, key string) error {
+	pt("store.Delete")
+	err := f.del(ctx, key)
+	pt("store.Delete/return")
+	return err
+}
+
+func (f *fstore) del(ctx context.Context, key string) error {
 	f.mu.Lock()
 	defer f.mu.Unlock()
 	if err := f.enter("delete", key); err != nil {
@@ -110,6 +152,13 @@ func (f *fstore) Delete(ctx context.Context, key string) error {
 }
 
 func (f *fstore) Query(ctx context.Context, prefix string) ([]allocator.KeyValue, error) {
+	pt("store.Query")
+	r, err := f.query(ctx, prefix)
+	pt("store.Query/return")
+	return r, err
+}
+
+func (f *fstore) query(ctx context.Context, prefix string) ([]allocator.KeyValue, error) {
 	f.mu.Lock()
 	defer f.mu.Unlock()
 	if err := f.enter("query", prefix); err != nil {
